@@ -9,7 +9,7 @@
    otherwise) ; Release ; every caller finally adopts whatever resolve yields.
    Definitions only; proofs in Proofs/CreateProofs.v. *)
 From Coq Require Import List Bool Arith.
-Require Import DS.Model.Commit.
+Require Import DS.Model.CommitBase DS.Model.Commit.
 Import ListNotations.
 
 Inductive cpc :=
@@ -82,6 +82,21 @@ Definition cstep (c : cfg) (w : cworld) (e : cevent) : option cworld :=
     Some (set w a (CDone (match resolve w with Some f => identity w f | None => None end)))
   | _, _ => None
   end.
+
+(* The protocol actions (CommitBase.paction) each creator event stands for, and the events of one successful
+   initialisation inside MetadataManager.initialize_table (after the probe outside the lock).  Props/C18.v shows the
+   concatenation is the skeleton regenerated from the source (Gen/GenCommit.v gen_create_path_cas, gen_create_path_plain). *)
+Definition cactions_of (k : cevkind) : list paction :=
+  match k with
+  | CLockTry true => [ALock]
+  | CCheck _ => [ACheckAbsent]
+  | CMetaW => [AStamp; AWriteMeta]
+  | CPtrCreate _ => [APtrCreate]
+  | CRelease => [ARelease]
+  | _ => []
+  end.
+Definition creator_events : list cevkind := [CLockTry true; CCheck false; CMetaW; CPtrCreate true; CRelease].
+Definition create_model_path : list paction := flat_map cactions_of creator_events.
 
 Definition cstep_skip c w e := match cstep c w e with Some w' => w' | None => w end.
 Definition crun (c : cfg) (w : cworld) (evs : list cevent) : cworld := fold_left (cstep_skip c) evs w.
